@@ -103,6 +103,14 @@ def _replay(c, beh, cfg_name, stores, nk, ntk, variants, what):
     ex = rep.get("extra", {})
     c.add("abandoned", ex.get("abandoned", 0))
     c.add("order_retries", ex.get("order_retries", 0))
+    unreached = ex.get("order_unreached", 0)
+    c.add("order_unreached", unreached)
+    if unreached:
+        c.note("%d behaviour x variant runs of %s could not be replayed: Go's map iteration never produced the substore commit "
+               "order they ask for in 400 attempts (not a verdict)" % (unreached, cfg_name))
+        if unreached * 20 > max(rep.get("behaviours", 0), 1):
+            raise vf.MachineryError("%d of %d behaviours of %s unreplayable (substore commit order not reached)"
+                                    % (unreached, rep.get("behaviours", 0), cfg_name))
     c.add("protocol_deviations", ex.get("protocol_deviations", 0))
     _known(c, ex.get("known", {}).get(KNOWN_FIRSTBLOCK, 0), "replayed behaviours of " + cfg_name, ex.get("known_example"))
     return rep
